@@ -77,6 +77,8 @@ class Gen:
             return ("noop", attr)
         if attr == "time":
             c = r.random()
+            if c < 0.04:
+                return ("S", "time", [], ("cmp", r.choice(ops), ("none",)))       # a comparison value that is no datetime (None passes the builder): no bisection, a test like any other
             if c < 0.85:
                 return ("S", "time", [], ("cmp", r.choice(ops), self.rhs_time()))
             if c < 0.95:
